@@ -49,7 +49,8 @@ NETS = {
                  ('jf', 6, 2, 0, [2])],
 }
 SIM_N = {'quick': 150, 'thorough': 1500}
-RND_N = {'quick': 600, 'thorough': 8000}
+RND_N = {'quick': 400, 'thorough': 8000}
+GRID_N = {'quick': (1200, 6), 'thorough': (7200, 1)}   # (count, stride) over the 7200 systematic strategies x orders
 
 
 def as_map(x):
@@ -264,14 +265,20 @@ def run(prop, tier):
         vlib.run([vh, 'dkg-random', '--proto', proto, '--n', str(n), '--t', str(t), '--dealer', str(dealer), '--byz',
                   ','.join(map(str, byz)), '--count', str(RND_N[tier]), '--seed', str(seed), '--prefix', tag + '-rnd',
                   '--out', rq], check=True)
+        # B2 (grid): systematic strategies of the first Byzantine participant, three delivery orders
+        rg = os.path.join(vlib.subdir('results'), tag + '-grid.ndjson')
+        gcount, gstride = GRID_N[tier]
+        vlib.run([vh, 'dkg-random', '--grid', '--stride', str(gstride), '--proto', proto, '--n', str(n), '--t', str(t), '--dealer',
+                  str(dealer), '--byz', ','.join(map(str, byz)), '--count', str(gcount), '--seed', str(seed), '--prefix', tag + '-grid',
+                  '--out', rg], check=True)
         results = []
-        for path in (rp, rq):
+        for path in (rp, rq, rg):
             for line in open(path):
                 d = json.loads(line)
                 r = d['result']
                 r['script'] = d['script']
                 results.append(r)
-        if len(results) < len(scripts) + RND_N[tier]:
+        if len(results) < len(scripts) + RND_N[tier] + GRID_N[tier][0]:
             raise vlib.Undecided('%s: executor returned %d results for %d scripts' % (tag, len(results), len(scripts) + RND_N[tier]))
         per_net[tag] = (proto, n, t, dealer, byz, results)
         all_results += results
